@@ -77,6 +77,7 @@ type cfg struct {
 	limit uint16
 	keys  [][]byte
 	vals  [][]byte
+	bulk  bool // the alphabet also has the bulk letter
 }
 
 type opKind int
@@ -92,7 +93,20 @@ const (
 	opReopen
 	opReopenDisk
 	opCopy
+	opBulk // macro: one step inserts bulkN filler keys with bulkLen-byte values (more node data than one write batch holds)
 )
+
+// The trie database flushes its write batch whenever it reaches libs/db.IdealBatchSize (100 KiB) and the caches have
+// size thresholds of their own: a bounded alphabet of small values never crosses them, the bulk letter does.
+const (
+	bulkN   = 48
+	bulkLen = 4096
+	bulkTag = "\xf0bulk"
+)
+
+func bulkKey(i int) []byte { return []byte(fmt.Sprintf("%s%02x-%d", bulkTag, (i*37)%256, i)) }
+func bulkVal(i int) []byte { return bytes.Repeat([]byte{byte(0x40 + i%50)}, bulkLen) }
+func isBulk(k string) bool { return strings.HasPrefix(k, bulkTag) }
 
 type op struct {
 	kind opKind
@@ -112,6 +126,9 @@ func (c *cfg) ops() []op {
 	out = append(out, op{kind: opHash}, op{kind: opCommit}, op{kind: opFlush}, op{kind: opReopen}, op{kind: opReopenDisk}, op{kind: opCap}, op{kind: opDeref})
 	if c.sec {
 		out = append(out, op{kind: opCopy})
+	}
+	if c.bulk {
+		out = append(out, op{kind: opBulk})
 	}
 	return out
 }
@@ -139,6 +156,8 @@ func (c *cfg) opName(o op) string {
 		return "ReopenFromDisk(lastFlushedRoot)"
 	case opCopy:
 		return "Copy(continue on copy, keep original)"
+	case opBulk:
+		return fmt.Sprintf("BulkUpdate(%d filler keys x %d-byte values)", bulkN, bulkLen)
 	}
 	return "?"
 }
@@ -162,8 +181,16 @@ func (m content) String() string {
 	}
 	sort.Strings(ks)
 	var b strings.Builder
+	nb := 0
 	for _, k := range ks {
+		if isBulk(k) {
+			nb++ // the fillers are always written together with fixed values: their number identifies them
+			continue
+		}
 		fmt.Fprintf(&b, "%x=%x;", k, m[k])
+	}
+	if nb > 0 {
+		fmt.Fprintf(&b, "+%d-fillers;", nb)
 	}
 	return b.String()
 }
@@ -327,6 +354,17 @@ func (in *inst) apply(o op) (bool, string, string) {
 		if in.reopened < 1 {
 			in.reopened++
 		}
+	case opBulk:
+		if _, ok := in.m[string(bulkKey(0))]; ok {
+			return false, "", "" // already present: no change
+		}
+		for i := 0; i < bulkN; i++ {
+			if err := in.t.TryUpdate(bulkKey(i), bulkVal(i)); err != nil {
+				return true, "update-error", err.Error()
+			}
+			in.m[string(bulkKey(i))] = string(bulkVal(i))
+		}
+		in.hashed = false
 	case opCopy:
 		if len(in.copies) >= 1 {
 			return false, "", ""
@@ -339,7 +377,14 @@ func (in *inst) apply(o op) (bool, string, string) {
 }
 
 func checkReads(c *cfg, t tr, m content, who string) (string, string) {
-	for _, k := range c.keys {
+	keys := c.keys
+	if _, ok := m[string(bulkKey(0))]; ok {
+		keys = append([][]byte{}, c.keys...)
+		for i := 0; i < bulkN; i++ {
+			keys = append(keys, bulkKey(i))
+		}
+	}
+	for _, k := range keys {
 		got, err := t.TryGet(k)
 		if err != nil {
 			return "get-error:" + who, fmt.Sprintf("TryGet(%q): %v", k, err)
@@ -497,7 +542,9 @@ func runSearch(r *vk.Run, c *cfg, name string, depth, maxState int) vk.Result {
 				return vk.Outcome{Err: k, What: w}
 			}
 			if len(in.m) <= 6 {
-				reached.Store(fmt.Sprintf("%v|%s", c.sec, in.m.String()), in.m.clone())
+				if _, ok := in.m[string(bulkKey(0))]; !ok {
+					reached.Store(fmt.Sprintf("%v|%s", c.sec, in.m.String()), in.m.clone())
+				}
 			}
 			return vk.Outcome{Key: in.key(), Soft: in.soft}
 		},
@@ -519,16 +566,21 @@ func main() {
 	var runs []run
 	if r.Quick() {
 		runs = []run{
-			{"plain/limit0", cfg{false, 0, baseKeys[:6], vals[:2]}, 5},
-			{"plain/limit1", cfg{false, 1, baseKeys[:6], vals[:2]}, 5},
-			{"secure/limit1", cfg{true, 1, baseKeys[:4], vals[:2]}, 5},
+			{"plain/limit0", cfg{false, 0, baseKeys[:6], vals[:2], false}, 5},
+			{"plain/limit1", cfg{false, 1, baseKeys[:6], vals[:2], false}, 5},
+			{"secure/limit1", cfg{true, 1, baseKeys[:4], vals[:2], false}, 5},
+			{"plain/limit0/bulk", cfg{false, 0, baseKeys[:3], vals[:1], true}, 5},
+			{"secure/limit1/bulk", cfg{true, 1, baseKeys[:2], vals[:1], true}, 5},
 		}
 	} else {
 		runs = []run{
-			{"plain/limit0", cfg{false, 0, allKeys, vals}, 5},
-			{"plain/limit1", cfg{false, 1, allKeys, vals}, 5},
-			{"secure/limit0", cfg{true, 0, baseKeys, vals}, 5},
-			{"secure/limit1", cfg{true, 1, baseKeys, vals}, 5},
+			{"plain/limit0", cfg{false, 0, allKeys, vals, false}, 5},
+			{"plain/limit1", cfg{false, 1, allKeys, vals, false}, 5},
+			{"secure/limit0", cfg{true, 0, baseKeys, vals, false}, 5},
+			{"secure/limit1", cfg{true, 1, baseKeys, vals, false}, 5},
+			{"plain/limit0/bulk", cfg{false, 0, baseKeys[:4], vals[:2], true}, 6},
+			{"plain/limit1/bulk", cfg{false, 1, baseKeys[:4], vals[:2], true}, 6},
+			{"secure/limit1/bulk", cfg{true, 1, baseKeys[:3], vals[:1], true}, 6},
 		}
 	}
 	states, trans := 0, 0
